@@ -297,11 +297,11 @@ static void init_case(int n, int vkind)
         SimpleRandom<double> rng(0);
         Eigen::VectorXd r = rng.random_vec(n);
         for (int i = 0; i < n; i++)
-            v0[i] = Real(r[i]);
+            v0[i] = sym::exact(r[i]);  // exact rational value of the double draw: later arithmetic stays exact
     }
     else
         for (int i = 0; i < n; i++)
-            v0[i] = (vkind == 1) ? Real(i == 0 ? 1.0 : 0.0) : sym::rational(i + 1, 7);
+            v0[i] = (vkind == 1) ? sym::rational(i == 0 ? 1 : 0, 1) : sym::rational(i + 1, 7);
     IdentityBOp bop;
     Fac fac(AOp(op, bop), n);
     Eigen::Index counter = 0;
